@@ -138,3 +138,178 @@ package xy
 //@     invariant idx == len(mask) ==> last == len(mask) - 1
 //@     invariant forall k int :: 0 < k && k < len(indexMap) ==> indexMap[k-1] < indexMap[k]
 //@     invariant forall k int :: 0 <= k && k < len(indexMap) ==> 0 <= indexMap[k] && indexMap[k] <= last
+
+// ---------------------------------------------------------------------------
+// C14 over the reals: signed area, point and line centroids, polygon centroid accumulators
+
+// clockwise positive: res == saSum/2, and saSum == -shoelace for a closed ring (lemma saIsShoe)
+//@ func SignedArea
+//@   floats real
+//@   lemmas mulCancel, mulCancel2, mulNonneg, mulMono
+//@   requires strideOf(layout) >= 2 && whole(len(ring), strideOf(layout))
+//@   ensures [small] cnt(len(ring), strideOf(layout)) < 3 ==> res == 0.0
+//@   ensures [sum] cnt(len(ring), strideOf(layout)) >= 3 ==> res * 2.0 == saSum(cells(ring), off(ring), strideOf(layout), cnt(len(ring), strideOf(layout)) - 2)
+//@   modifies nothing
+//@   loop 1:
+//@     ghost m int = 0 step m + 1
+//@     invariant m >= 0 && i == mul(m + 1, stride) && stride == strideOf(layout) && lenMinusOnePoint == len(ring) - stride && x0 == ring[0]
+//@     invariant m == 0 || mul(m, stride) < lenMinusOnePoint
+//@     invariant sum == saSum(cells(ring), off(ring), stride, m)
+
+//@ func PointCentroidCalculator.AddCoord
+//@   floats real
+//@   requires len(point) >= 2 && len(calc.centSum) >= 2 && base(point) != base(calc.centSum)
+//@   ensures calc.ptCount == old(calc.ptCount) + 1 && calc.centSum == old(calc.centSum)
+//@   ensures calc.centSum[0] == old(calc.centSum[0]) + point[0] && calc.centSum[1] == old(calc.centSum[1]) + point[1]
+//@   modifies *calc, calc.centSum[0:2]
+
+//@ func PointCentroidCalculator.GetCentroid
+//@   floats real
+//@   requires len(calc.centSum) >= 2 && calc.ptCount > 0
+//@   ensures fresh(res) && len(res) == 2 && res[0] * real(calc.ptCount) == calc.centSum[0] && res[1] * real(calc.ptCount) == calc.centSum[1]
+//@   modifies nothing
+
+// arithmetic mean of the coordinates (non-empty input)
+//@ func PointsCentroidFlat
+//@   floats real
+//@   lemmas mulCancel, mulCancel2, mulNonneg, mulMono
+//@   requires strideOf(layout) >= 2 && whole(len(pointData), strideOf(layout)) && len(pointData) > 0
+//@   ensures len(res) == 2 && res[0] * real(cnt(len(pointData), strideOf(layout))) == osum(cells(pointData), off(pointData), strideOf(layout), 0, cnt(len(pointData), strideOf(layout)))
+//@   ensures res[1] * real(cnt(len(pointData), strideOf(layout))) == osum(cells(pointData), off(pointData), strideOf(layout), 1, cnt(len(pointData), strideOf(layout)))
+//@   modifies nothing
+//@   loop 1:
+//@     ghost m int = 0 step m + 1
+//@     invariant m >= 0 && i == mul(m, stride) && stride == strideOf(layout) && arrayLen == len(pointData) && i <= arrayLen
+//@     invariant calc.ptCount == m && len(calc.centSum) == 2 && fresh(calc.centSum) && len(coord) == 2 && fresh(coord) && base(coord) != base(calc.centSum)
+//@     invariant calc.centSum[0] == osum(cells(pointData), off(pointData), stride, 0, m) && calc.centSum[1] == osum(cells(pointData), off(pointData), stride, 1, m)
+
+// length-weighted mean of segment midpoints
+//@ func LineCentroidCalculator.addLine
+//@   floats real
+//@   lemmas mulCancel, mulCancel2, mulNonneg, mulMono
+//@   requires calc.stride >= 2 && len(calc.centSum) >= 2 && base(line) != base(calc.centSum) && 0 <= startLine && startLine <= endLine && endLine <= len(line) && whole(endLine - startLine, calc.stride)
+//@   ensures calc.stride == old(calc.stride) && calc.layout == old(calc.layout) && calc.centSum == old(calc.centSum)
+//@   ensures calc.totalLength == old(calc.totalLength) + lsum(cells(line), off(line) + startLine, calc.stride, cnt(endLine - startLine, calc.stride) - 1)
+//@   ensures calc.centSum[0] == old(calc.centSum[0]) + msum(cells(line), off(line) + startLine, calc.stride, 0, cnt(endLine - startLine, calc.stride) - 1)
+//@   ensures calc.centSum[1] == old(calc.centSum[1]) + msum(cells(line), off(line) + startLine, calc.stride, 1, cnt(endLine - startLine, calc.stride) - 1)
+//@   modifies *calc, calc.centSum[0:2]
+//@   at stmt5: assert segmentLen == seglen(cells(line), off(line) + startLine, calc.stride, m + 1)
+//@   loop 1:
+//@     ghost m int = 0 step m + 1
+//@     invariant m >= 0 && i == startLine + mul(m, calc.stride) && lineMinusLastPoint == endLine - calc.stride && mul(m + 1, calc.stride) == mul(m, calc.stride) + calc.stride && endLine - startLine == mul(cnt(endLine - startLine, calc.stride), calc.stride)
+//@     invariant m == 0 || i < endLine
+//@     invariant calc.stride == old(calc.stride) && calc.layout == old(calc.layout) && calc.centSum == old(calc.centSum)
+//@     invariant calc.totalLength == old(calc.totalLength) + lsum(cells(line), off(line) + startLine, calc.stride, m)
+//@     invariant calc.centSum[0] == old(calc.centSum[0]) + msum(cells(line), off(line) + startLine, calc.stride, 0, m) && calc.centSum[1] == old(calc.centSum[1]) + msum(cells(line), off(line) + startLine, calc.stride, 1, m)
+
+//@ func LineCentroidCalculator.GetCentroid
+//@   floats real
+//@   requires strideOf(calc.layout) >= 2 && len(calc.centSum) >= 2 && calc.totalLength != 0.0
+//@   ensures fresh(res) && len(res) == strideOf(calc.layout) && res[0] * calc.totalLength == calc.centSum[0] && res[1] * calc.totalLength == calc.centSum[1]
+//@   modifies nothing
+
+// polygon centroid: triangle fan accumulators
+//@ func area2
+//@   floats real
+//@   requires len(p1) >= 2 && len(p2) >= 2 && len(p3) >= 2
+//@   ensures res == (p2[0]-p1[0])*(p3[1]-p1[1]) - (p3[0]-p1[0])*(p2[1]-p1[1])
+//@   modifies nothing
+
+//@ func centroid3
+//@   floats real
+//@   requires len(p1) >= 2 && len(p2) >= 2 && len(p3) >= 2 && len(c) >= 2 && base(c) != base(p1) && base(c) != base(p2) && base(c) != base(p3)
+//@   ensures c[0] == old(p1[0] + p2[0] + p3[0]) && c[1] == old(p1[1] + p2[1] + p3[1])
+//@   modifies c[0:2]
+
+//@ func AreaCentroidCalculator.addTriangle
+//@   floats real
+//@   requires len(p0) >= 2 && len(p1) >= 2 && len(p2) >= 2 && len(calc.triangleCent3) >= 2 && len(calc.cg3) >= 2
+//@   requires base(calc.triangleCent3) != base(calc.cg3) && base(p0) != base(calc.triangleCent3) && base(p1) != base(calc.triangleCent3) && base(p2) != base(calc.triangleCent3) && base(p0) != base(calc.cg3) && base(p1) != base(calc.cg3) && base(p2) != base(calc.cg3)
+//@   ensures calc.areasum2 == old(calc.areasum2) + (isPositiveArea ? 0.0 - 1.0 : 1.0) * ((p1[0]-p0[0])*(p2[1]-p0[1]) - (p2[0]-p0[0])*(p1[1]-p0[1]))
+//@   ensures calc.cg3[0] == old(calc.cg3[0]) + (isPositiveArea ? 0.0 - 1.0 : 1.0) * ((p1[0]-p0[0])*(p2[1]-p0[1]) - (p2[0]-p0[0])*(p1[1]-p0[1])) * (p0[0] + p1[0] + p2[0])
+//@   ensures calc.cg3[1] == old(calc.cg3[1]) + (isPositiveArea ? 0.0 - 1.0 : 1.0) * ((p1[0]-p0[0])*(p2[1]-p0[1]) - (p2[0]-p0[0])*(p1[1]-p0[1])) * (p0[1] + p1[1] + p2[1])
+//@   ensures calc.cg3 == old(calc.cg3) && calc.triangleCent3 == old(calc.triangleCent3) && calc.basePt == old(calc.basePt) && calc.centSum == old(calc.centSum) && calc.totalLength == old(calc.totalLength) && calc.stride == old(calc.stride) && calc.layout == old(calc.layout)
+//@   modifies *calc, calc.cg3[0:2], calc.triangleCent3[0:2]
+
+// area-weighted mean: cg3 / 3 / areasum2 (the textbook closed form once the accumulators are the fan sums);
+// zero area falls back to the length-weighted line centroid
+//@ func AreaCentroidCalculator.GetCentroid
+//@   floats real
+//@   requires calc.stride >= 2 && (calc.centSum != nil ==> len(calc.centSum) >= 2 && len(calc.cg3) >= 2 && (calc.areasum2 == 0.0 ==> calc.totalLength != 0.0))
+//@   ensures fresh(res) && len(res) == calc.stride
+//@   ensures calc.centSum != nil && calc.areasum2 != 0.0 ==> res[0] * 3.0 * calc.areasum2 == calc.cg3[0] && res[1] * 3.0 * calc.areasum2 == calc.cg3[1]
+//@   ensures calc.centSum != nil && calc.areasum2 == 0.0 ==> res[0] * calc.totalLength == calc.centSum[0] && res[1] * calc.totalLength == calc.centSum[1]
+//@   modifies nothing
+
+//@ func AreaCentroidCalculator.addLinearSegments
+//@   floats real
+//@   lemmas mulCancel, mulCancel2, mulNonneg, mulMono
+//@   requires calc.stride >= 2 && len(calc.centSum) >= 2 && base(pts) != base(calc.centSum) && whole(len(pts), calc.stride)
+//@   ensures calc.totalLength == old(calc.totalLength) + lsum(cells(pts), off(pts), calc.stride, cnt(len(pts), calc.stride) - 1)
+//@   ensures calc.centSum[0] == old(calc.centSum[0]) + msum(cells(pts), off(pts), calc.stride, 0, cnt(len(pts), calc.stride) - 1)
+//@   ensures calc.centSum[1] == old(calc.centSum[1]) + msum(cells(pts), off(pts), calc.stride, 1, cnt(len(pts), calc.stride) - 1)
+//@   ensures calc.stride == old(calc.stride) && calc.layout == old(calc.layout) && calc.centSum == old(calc.centSum) && calc.cg3 == old(calc.cg3) && calc.triangleCent3 == old(calc.triangleCent3) && calc.basePt == old(calc.basePt) && calc.areasum2 == old(calc.areasum2)
+//@   modifies *calc, calc.centSum[0:2]
+//@   at stmt5: assert segmentLen == seglen(cells(pts), off(pts), stride, m + 1)
+//@   at stmt7: assert midx == (pts[mul(m + 1, stride) - stride] + pts[mul(m + 1, stride)]) / 2.0
+//@   at stmt9: assert midy == (pts[mul(m + 1, stride) - stride + 1] + pts[mul(m + 1, stride) + 1]) / 2.0
+//@   loop 1:
+//@     ghost m int = 0 step m + 1
+//@     invariant m >= 0 && i == mul(m, stride) && stride == calc.stride && mul(m + 1, stride) == mul(m, stride) + stride && len(pts) == mul(cnt(len(pts), stride), stride)
+//@     invariant m == 0 || i < len(pts)
+//@     invariant calc.stride == old(calc.stride) && calc.layout == old(calc.layout) && calc.centSum == old(calc.centSum) && calc.cg3 == old(calc.cg3) && calc.triangleCent3 == old(calc.triangleCent3) && calc.basePt == old(calc.basePt) && calc.areasum2 == old(calc.areasum2)
+//@     invariant calc.totalLength == old(calc.totalLength) + lsum(cells(pts), off(pts), stride, m)
+//@     invariant calc.centSum[0] == old(calc.centSum[0]) + msum(cells(pts), off(pts), stride, 0, m) && calc.centSum[1] == old(calc.centSum[1]) + msum(cells(pts), off(pts), stride, 1, m)
+
+// ring direction: totality only (indices stay inside the ring for every closed ring of at least four coordinates);
+// that the answer is the sign of the area for simple rings is a Jordan-curve-level fact outside this family
+//@ func IsRingCounterClockwise
+//@   floats real
+//@   trusted
+//@   requires strideOf(layout) >= 2 && whole(len(ring), strideOf(layout)) && cnt(len(ring), strideOf(layout)) >= 4
+//@   modifies nothing
+//@   decreases *
+
+//@ func AreaCentroidCalculator.addShell
+//@   floats real
+//@   lemmas mulCancel, mulCancel2, mulNonneg, mulMono
+//@   requires calc.stride >= 2 && calc.stride == strideOf(calc.layout) && whole(len(pts), calc.stride) && cnt(len(pts), calc.stride) >= 4
+//@   requires len(calc.basePt) >= 2 && len(calc.centSum) >= 2 && len(calc.cg3) >= 2 && len(calc.triangleCent3) >= 2
+//@   requires base(calc.cg3) != base(calc.triangleCent3) && base(calc.cg3) != base(calc.centSum) && base(calc.centSum) != base(calc.triangleCent3) && base(calc.basePt) != base(calc.cg3) && base(calc.basePt) != base(calc.triangleCent3) && base(calc.basePt) != base(calc.centSum) && base(pts) != base(calc.cg3) && base(pts) != base(calc.triangleCent3) && base(pts) != base(calc.centSum)
+//@   ensures [fan] (calc.areasum2 == old(calc.areasum2) + fanA(cells(pts), off(pts), calc.stride, calc.basePt[0], calc.basePt[1], cnt(len(pts), calc.stride) - 1) && calc.cg3[0] == old(calc.cg3[0]) + fanC(cells(pts), off(pts), calc.stride, calc.basePt[0], calc.basePt[1], 0, cnt(len(pts), calc.stride) - 1) && calc.cg3[1] == old(calc.cg3[1]) + fanC(cells(pts), off(pts), calc.stride, calc.basePt[0], calc.basePt[1], 1, cnt(len(pts), calc.stride) - 1)) || (calc.areasum2 == old(calc.areasum2) - fanA(cells(pts), off(pts), calc.stride, calc.basePt[0], calc.basePt[1], cnt(len(pts), calc.stride) - 1) && calc.cg3[0] == old(calc.cg3[0]) - fanC(cells(pts), off(pts), calc.stride, calc.basePt[0], calc.basePt[1], 0, cnt(len(pts), calc.stride) - 1) && calc.cg3[1] == old(calc.cg3[1]) - fanC(cells(pts), off(pts), calc.stride, calc.basePt[0], calc.basePt[1], 1, cnt(len(pts), calc.stride) - 1))
+//@   ensures calc.totalLength == old(calc.totalLength) + lsum(cells(pts), off(pts), calc.stride, cnt(len(pts), calc.stride) - 1)
+//@   ensures calc.stride == old(calc.stride) && calc.layout == old(calc.layout) && calc.centSum == old(calc.centSum) && calc.cg3 == old(calc.cg3) && calc.triangleCent3 == old(calc.triangleCent3) && calc.basePt == old(calc.basePt)
+//@   modifies *calc, calc.cg3[0:2], calc.triangleCent3[0:2], calc.centSum[0:2]
+//@   at stmt11: assert p1[0] == pts[mul(m + 1, stride) - stride] && p1[1] == pts[mul(m + 1, stride) - stride + 1] && p2[0] == pts[mul(m + 1, stride)] && p2[1] == pts[mul(m + 1, stride) + 1]
+//@   loop 1:
+//@     ghost m int = 0 step m + 1
+//@     ghost sg float64 = (isPositiveArea ? 0.0 - 1.0 : 1.0) step sg
+//@     invariant sg == (isPositiveArea ? 0.0 - 1.0 : 1.0)
+//@     invariant m >= 0 && i == mul(m, stride) && stride == calc.stride && mul(m + 1, stride) == mul(m, stride) + stride && len(pts) == mul(cnt(len(pts), stride), stride)
+//@     invariant m == 0 || i < len(pts)
+//@     invariant len(p1) == 2 && len(p2) == 2 && fresh(p1) && fresh(p2) && base(p1) != base(p2)
+//@     invariant calc.stride == old(calc.stride) && calc.layout == old(calc.layout) && calc.centSum == old(calc.centSum) && calc.cg3 == old(calc.cg3) && calc.triangleCent3 == old(calc.triangleCent3) && calc.basePt == old(calc.basePt) && calc.totalLength == old(calc.totalLength)
+//@     invariant calc.areasum2 == old(calc.areasum2) + sg * fanA(cells(pts), off(pts), stride, calc.basePt[0], calc.basePt[1], m)
+//@     invariant calc.cg3[0] == old(calc.cg3[0]) + sg * fanC(cells(pts), off(pts), stride, calc.basePt[0], calc.basePt[1], 0, m) && calc.cg3[1] == old(calc.cg3[1]) + sg * fanC(cells(pts), off(pts), stride, calc.basePt[0], calc.basePt[1], 1, m)
+
+//@ func AreaCentroidCalculator.addHole
+//@   floats real
+//@   lemmas mulCancel, mulCancel2, mulNonneg, mulMono
+//@   requires calc.stride >= 2 && calc.stride == strideOf(calc.layout) && whole(len(pts), calc.stride) && cnt(len(pts), calc.stride) >= 4
+//@   requires len(calc.basePt) >= 2 && len(calc.centSum) >= 2 && len(calc.cg3) >= 2 && len(calc.triangleCent3) >= 2
+//@   requires base(calc.cg3) != base(calc.triangleCent3) && base(calc.cg3) != base(calc.centSum) && base(calc.centSum) != base(calc.triangleCent3) && base(calc.basePt) != base(calc.cg3) && base(calc.basePt) != base(calc.triangleCent3) && base(calc.basePt) != base(calc.centSum) && base(pts) != base(calc.cg3) && base(pts) != base(calc.triangleCent3) && base(pts) != base(calc.centSum)
+//@   ensures [fan] (calc.areasum2 == old(calc.areasum2) + fanA(cells(pts), off(pts), calc.stride, calc.basePt[0], calc.basePt[1], cnt(len(pts), calc.stride) - 1) && calc.cg3[0] == old(calc.cg3[0]) + fanC(cells(pts), off(pts), calc.stride, calc.basePt[0], calc.basePt[1], 0, cnt(len(pts), calc.stride) - 1) && calc.cg3[1] == old(calc.cg3[1]) + fanC(cells(pts), off(pts), calc.stride, calc.basePt[0], calc.basePt[1], 1, cnt(len(pts), calc.stride) - 1)) || (calc.areasum2 == old(calc.areasum2) - fanA(cells(pts), off(pts), calc.stride, calc.basePt[0], calc.basePt[1], cnt(len(pts), calc.stride) - 1) && calc.cg3[0] == old(calc.cg3[0]) - fanC(cells(pts), off(pts), calc.stride, calc.basePt[0], calc.basePt[1], 0, cnt(len(pts), calc.stride) - 1) && calc.cg3[1] == old(calc.cg3[1]) - fanC(cells(pts), off(pts), calc.stride, calc.basePt[0], calc.basePt[1], 1, cnt(len(pts), calc.stride) - 1))
+//@   ensures calc.totalLength == old(calc.totalLength) + lsum(cells(pts), off(pts), calc.stride, cnt(len(pts), calc.stride) - 1)
+//@   ensures calc.stride == old(calc.stride) && calc.layout == old(calc.layout) && calc.centSum == old(calc.centSum) && calc.cg3 == old(calc.cg3) && calc.triangleCent3 == old(calc.triangleCent3) && calc.basePt == old(calc.basePt)
+//@   modifies *calc, calc.cg3[0:2], calc.triangleCent3[0:2], calc.centSum[0:2]
+//@   at stmt11: assert p1[0] == pts[mul(m + 1, stride) - stride] && p1[1] == pts[mul(m + 1, stride) - stride + 1] && p2[0] == pts[mul(m + 1, stride)] && p2[1] == pts[mul(m + 1, stride) + 1]
+//@   loop 1:
+//@     ghost m int = 0 step m + 1
+//@     ghost sg float64 = (isPositiveArea ? 0.0 - 1.0 : 1.0) step sg
+//@     invariant sg == (isPositiveArea ? 0.0 - 1.0 : 1.0)
+//@     invariant m >= 0 && i == mul(m, stride) && stride == calc.stride && mul(m + 1, stride) == mul(m, stride) + stride && len(pts) == mul(cnt(len(pts), stride), stride)
+//@     invariant m == 0 || i < len(pts)
+//@     invariant len(p1) == 2 && len(p2) == 2 && fresh(p1) && fresh(p2) && base(p1) != base(p2)
+//@     invariant calc.stride == old(calc.stride) && calc.layout == old(calc.layout) && calc.centSum == old(calc.centSum) && calc.cg3 == old(calc.cg3) && calc.triangleCent3 == old(calc.triangleCent3) && calc.basePt == old(calc.basePt) && calc.totalLength == old(calc.totalLength)
+//@     invariant calc.areasum2 == old(calc.areasum2) + sg * fanA(cells(pts), off(pts), stride, calc.basePt[0], calc.basePt[1], m)
+//@     invariant calc.cg3[0] == old(calc.cg3[0]) + sg * fanC(cells(pts), off(pts), stride, calc.basePt[0], calc.basePt[1], 0, m) && calc.cg3[1] == old(calc.cg3[1]) + sg * fanC(cells(pts), off(pts), stride, calc.basePt[0], calc.basePt[1], 1, m)
